@@ -19,7 +19,7 @@ PROOF_TARGETS = ["Props/C12.vo"]
 PROPS_FILE = "Props/C12.v"
 PROPS_MODULE = "Props.C12"
 RULE = ("random charts of the five games (every list of the game incl. osu/Quaver SVs and StepMania mines/rolls/stops; empty lists; "
-        "non-default row labels) and mapsets of 2-3 charts; histories of 1-6 stack operations: whole-column = + - * / with scalar or "
+        "non-default row labels) and mapsets of 2-3 charts (40 % with an additional chart whose lists are all empty); histories of 1-6 stack operations: whole-column = + - * / with scalar or "
         "per-row operand on every stack property, conditional loc assignment on one or several columns with random and "
         "condition-derived boolean masks, re-stacking with include_types; one Coq case per transition plus one per stack(); "
         "non-trivial = the stack has >= 2 rows; distinct by hash of canonical JSON")
